@@ -180,6 +180,13 @@ def plan(tier, prop):
                     if kind == "holdout_random" and sum(sum(t) for t in lay) + n_obs > (4 if tier == "quick" else 6):
                         continue
                     items.append({"op": kind, "params": {"fraction": f}, "layout": lay, "n_obs": n_obs, "pool": "mixed"})
+    # operation objects that were already used once (state kept on the object between calls)
+    reuse = []
+    for it in items:
+        if (it["op"] in SMOOTHERS or it["op"] in GENERATORS) and it["n_obs"] == 0 and it["pool"] == "mixed" \
+                and sum(sum(t) for t in it["layout"]) <= (4 if tier == "quick" else 5):
+            reuse.append(dict(it, reuse=True))
+    items += reuse
     if prop == "C13":
         items = [it for it in items if not it["op"].startswith("holdout") and it["op"] not in ("permutation", "ensemble")]
         for lay in lay_gen:
@@ -202,10 +209,19 @@ def execute(item, chooser):
     before = rows_of(screen)
     rng = ScriptedGenerator(chooser)
     try:
+        op = make_op(kind, item["params"]) if kind in GENERATORS or kind in SMOOTHERS else None
+        if op is not None and item.get("reuse"):
+            # the operation object has been used before (same input, default random answers): a second call must
+            # give what the statement promises just the same
+            warm = make_screen(rows, control=CTL)
+            try:
+                (op.generate_plates if kind in GENERATORS else op.smooth_plates)(warm, ScriptedGenerator(Chooser()))
+            except Exception:  # noqa: BLE001
+                pass
         if kind in GENERATORS:
-            out = make_op(kind, item["params"]).generate_plates(screen, rng)
+            out = op.generate_plates(screen, rng)
         elif kind in SMOOTHERS:
-            out = make_op(kind, item["params"]).smooth_plates(screen, rng)
+            out = op.smooth_plates(screen, rng)
         elif kind == "holdout_plate":
             out = R.create_plate_balanced_holdout_set_among_masked_plates(screen, item["params"]["fraction"], rng)
         elif kind == "holdout_random":
@@ -430,7 +446,7 @@ def run_item(prop, item, col):
     for ch, (before, out, exc) in explore(body, max_leaves=(LEAF_CAP, info)):
         col.evaluations += 1
         col.transitions += 1
-        col.count("op:" + item["op"])
+        col.count("op:" + item["op"] + ("(reused object)" if item.get("reuse") else ""))
         if exc is not None:
             from ..explore import NondeterminismError
 
@@ -449,9 +465,9 @@ def run_item(prop, item, col):
         col.outcome(item["op"], okey)
         col.states += 1
         if nontrivial(item, ch, before, out):
-            col.nontriv(item["op"], item["params"], item["layout"], item["n_obs"], okey)
+            col.nontriv(item["op"], item["params"], item["layout"], item["n_obs"], bool(item.get("reuse")), okey)
         for sig, msg in res:
-            col.violation(sig, f"{item['op']}{item['params']} on layout {item['layout']} (+{item['n_obs']} observed rows), answers {ch.choices}: {msg}", case)
+            col.violation(sig + ("|reused-object" if item.get("reuse") else ""), f"{item['op']}{item['params']}{' (object used once before)' if item.get('reuse') else ''} on layout {item['layout']} (+{item['n_obs']} observed rows), answers {ch.choices}: {msg}", case)
     if info.get("cap_hit"):
         col.cap(f"leaf cap {LEAF_CAP} hit for {item['op']} on {item['layout']}")
 
@@ -473,4 +489,4 @@ def replay(prop, case, col):
         for r in describe(o):
             print("   ", r)
     for sig, msg in ORACLES[prop](item, before, out):
-        col.violation(sig, msg, case)
+        col.violation(sig + ("|reused-object" if item.get("reuse") else ""), msg, case)
